@@ -85,6 +85,26 @@ def fault_exc(kind: Any, what: str) -> BaseException:
     return RuntimeError(what)
 
 
+def make_mw_class(name: str, base: Any, methods: Dict[str, Any], inherit: Any = None) -> Any:
+    """Middleware class with the given hook methods. inherit: None - defined on the class itself;
+    'base' - all hooks on an intermediate class, the instantiated class is an empty subclass of it;
+    'split' - alternate hooks on the intermediate class and on the leaf; 'mixin' - hooks supplied
+    by a mixin listed before the base. A hook counts as overridden however the class came by it."""
+    if not inherit:
+        return type(name, (base,), dict(methods))
+    if inherit == "base":
+        mid = type(name + "Base", (base,), dict(methods))
+        return type(name, (mid,), {})
+    if inherit == "split":
+        names = sorted(methods)
+        mid = type(name + "Base", (base,), {k: methods[k] for k in names[::2]})
+        return type(name, (mid,), {k: methods[k] for k in names[1::2]})
+    if inherit == "mixin":
+        mx = type(name + "Mixin", (object,), dict(methods))
+        return type(name, (mx, base), {})
+    raise ValueError(inherit)
+
+
 def _tick() -> None:
     """Harness clock tick (no effect on the code under test)."""
 
@@ -503,7 +523,7 @@ class RecvWorld(World):
                     hook, evname[hook], mode, mi, spec.get("fail", {}).get(hook, ()), bool(spec.get("replace")),
                     spec.get("fail_exc"),
                 )
-            cls = type(f"RecMW{mi}", (TaskiqMiddleware,), methods)
+            cls = make_mw_class(f"RecMW{mi}", TaskiqMiddleware, methods, spec.get("inherit"))
             broker.add_middlewares(cls())
 
     def _mk_hook(self, hook: str, ev: str, mode: str, mi: int, fail: Any, replace: bool = False, fail_exc: Any = None) -> Any:
